@@ -33,7 +33,7 @@ Fragments == {<<10>>, <<13, 10>>,
 \* a class, field, method and header line; a further line (or nothing) follows.  Whatever the insertion spoils is
 \* its own line.
 Utf8Lines == {B("ab -> c:"), B("    int f -> g"), B("    1:2:void m(x):3:4 -> n"), B("# k: v")}
-Utf8Seqs == {<<195>>, <<195, 169>>, <<226, 130>>, <<169>>, <<255>>, <<239, 187, 191>>}      \* (the last: U+FEFF, a byte order mark)
+Utf8Seqs == {<<195>>, <<195, 169>>, <<226, 130>>, <<169>>, <<255>>, <<239, 187, 191>>, <<178>>, <<189>>}   \* (B2, BD: Latin-1 bytes the digit scan takes for numeric)      \* (the last: U+FEFF, a byte order mark)
 \* (a line led by a byte order mark is a line like any other, wherever it stands)
 Utf8Follows == {<<>>, B("a -> b:") \o <<10>>, B("    void m() -> n"), <<239, 187, 191>> \o B("a -> b:") \o <<10>>,
                 <<239, 187, 191>> \o B("# k: v") \o <<10>> \o B("a -> b:")}
